@@ -232,6 +232,35 @@ func c14Ctx(c *Ctx) {
 		why, ok := an.CtxOrigin(ctxArg, allowed, 0)
 		c.R.Cond(ok, rule, fname+" -> "+callee, c.P.Pos(s.Call.Pos()), "context is "+why, "storage request would not be bounded by the connection's deadline: "+why)
 	}
+	// the trusted fields themselves: what is stored into a cursor's context is the connection's
+	// context (or derived from it without detaching); the connection's own context is C15.conn's subject
+	connCtx := an.LookupField(c.P, "sqlite", "S3DBConn", "ctx")
+	curCtx := an.LookupField(c.P, "sqlite", "Cursor", "ctx")
+	if connCtx == nil || curCtx == nil {
+		return
+	}
+	n := 0
+	for _, fn := range c.P.RepoFuncs(an.LibraryPkg) {
+		for _, b := range fn.Blocks {
+			for _, in := range b.Instrs {
+				st, ok := in.(*ssa.Store)
+				if !ok {
+					continue
+				}
+				fa, ok := st.Addr.(*ssa.FieldAddr)
+				if !ok || an.FieldVar(fa.X.Type(), fa.Field) != curCtx {
+					continue
+				}
+				n++
+				why, good := an.CtxOrigin(st.Val, map[*types.Var]bool{connCtx: true}, 0)
+				c.R.Cond(good, rule, fmt.Sprintf("%s: cursor context #%d", core.FuncName(fn), n), c.P.Pos(st.Pos()), "a cursor's context is "+why,
+					"the context a cursor reads with is not the connection's: "+why+" — every GET of a scan (SELECT, and the scanning half of UPDATE/DELETE) then runs without the connection's deadline and blocks for as long as the store stays silent")
+			}
+		}
+	}
+	if n == 0 {
+		c.R.Unk(rule, "cursor context", "-", "no store into Cursor.ctx found")
+	}
 }
 
 func init() {
